@@ -39,6 +39,7 @@ struct SigFact {
   borrow: &'static str,
   outlives_bound: bool,
   is_unsafe: bool,
+  lifetime_generic: bool,
 }
 
 fn has_lifetime_params(g: &Generics) -> bool {
@@ -138,6 +139,8 @@ pub fn facts(files: &[(String, File)]) -> (String, String) {
   let mut alloc_sites: Vec<(String, String)> = vec![];
   let mut macro_eq_body = String::new();
   let mut drop_types: BTreeSet<String> = BTreeSet::new();
+  let mut exported_mods: Vec<String> = vec![];
+  let mut provided_overrides: Vec<String> = vec![];
   for (_, f) in files {
     for it in &f.items {
       if let Item::Impl(im) = it {
@@ -169,6 +172,32 @@ pub fn facts(files: &[(String, File)]) -> (String, String) {
   for (rel, f) in files {
     for it in &f.items {
       match it {
+        Item::Mod(m) => {
+          // a module that is reachable from outside the crate exposes the iterator constructors (whose lifetime
+          // parameter is not tied to anything) and the layout helpers
+          if matches!(m.vis, Visibility::Public(_)) && rel == "lib.rs" {
+            exported_mods.push(format!("{}::{}", rel, m.ident));
+          }
+        }
+        Item::Use(u) if matches!(u.vis, Visibility::Public(_)) && rel == "lib.rs" => {
+          // what the crate root re-exports: the four iterator TYPES and nothing else
+          fn leaves(t: &UseTree, out: &mut Vec<String>) {
+            match t {
+              UseTree::Path(p) => leaves(&p.tree, out),
+              UseTree::Name(n) => out.push(n.ident.to_string()),
+              UseTree::Rename(r) => out.push(r.ident.to_string()),
+              UseTree::Glob(_) => out.push("*".into()),
+              UseTree::Group(g) => g.items.iter().for_each(|i| leaves(i, out)),
+            }
+          }
+          let mut ls = vec![];
+          leaves(&u.tree, &mut ls);
+          for l in ls {
+            if !["Drain", "DrainFilter", "IntoIter", "Splice"].contains(&l.as_str()) {
+              exported_mods.push(format!("{}::use {}", rel, l));
+            }
+          }
+        }
         Item::Struct(s) => {
           let name = s.ident.to_string();
           let fields: Vec<&'static str> = match &s.fields {
@@ -232,10 +261,26 @@ pub fn facts(files: &[(String, File)]) -> (String, String) {
                         borrow,
                         outlives_bound: outl,
                         is_unsafe: m.sig.unsafety.is_some(),
+                        lifetime_generic: has_lifetime_params(&m.sig.generics),
                       });
                     }
                   }
                   Some(t) => {
+                    // a provided method of a comparison / hashing / formatting trait that the impl overrides
+                    // (`ne`, `lt`, `max`, `hash_slice`, ...): it is a second definition of the operator
+                    let required = match t.as_str() {
+                      "PartialEq" => Some("eq"),
+                      "PartialOrd" => Some("partial_cmp"),
+                      "Ord" => Some("cmp"),
+                      "Hash" => Some("hash"),
+                      "Debug" => Some("fmt"),
+                      _ => None,
+                    };
+                    if let Some(r) = required {
+                      if m.sig.ident != r {
+                        provided_overrides.push(format!("{}::{}", t, m.sig.ident));
+                      }
+                    }
                     let key = match (t.as_str(), m.sig.ident.to_string().as_str()) {
                       ("Ord", "cmp") => Some("ord"),
                       ("PartialOrd", "partial_cmp") => Some("partialOrd"),
@@ -263,6 +308,12 @@ pub fn facts(files: &[(String, File)]) -> (String, String) {
     }
   }
   deleg.insert("partialEq".into(), deleg_shape(&macro_eq_fn_body(&macro_eq_body)));
+  // the `PartialEq` impls come out of a macro: any `fn` in its body besides `eq` is an override too
+  let mb = macro_eq_body.replace(' ', "");
+  let fns = mb.matches("fn").count();
+  if fns > 1 {
+    provided_overrides.push(format!("PartialEq::<{} extra fn in minivec_eq_impl!>", fns - 1));
+  }
 
   // ---- Lean
   let mut l = String::from("/- GENERATED by mvtrans from /repo/src on every run. Do not edit. -/\nnamespace MV.Gen.Facts\n\n");
@@ -295,6 +346,7 @@ pub fn facts(files: &[(String, File)]) -> (String, String) {
     ("elemOutlives", "Bool", Box::new(|s: &SigFact| s.outlives_bound.to_string())),
     ("isUnsafe", "Bool", Box::new(|s: &SigFact| s.is_unsafe.to_string())),
     ("resultHasDrop", "Bool", Box::new(|s: &SigFact| s.has_drop.to_string())),
+    ("declaresLifetime", "Bool", Box::new(|s: &SigFact| s.lifetime_generic.to_string())),
   ] {
     l.push_str(&format!("def {} : Api → {}\n", fname, ty));
     for s in &sigs {
@@ -307,6 +359,7 @@ pub fn facts(files: &[(String, File)]) -> (String, String) {
     l.push_str(&format!("  | \"{}\" => some .{}\n", s.name, lean_ident(&s.name)));
   }
   l.push_str("  | _ => none\n\n");
+  l.push_str(&format!("/-- `pub mod` declarations at the crate root, and names other than the four iterator types that the crate root re-exports: either\n    makes the crate's internals (the iterator constructors with their free lifetime parameter) nameable by clients -/\ndef exportedModules : Nat := {}\n\n", exported_mods.len()));
   l.push_str("/-- bound on `T` of an `unsafe impl Send/Sync` -/\ninductive AutoBound | send | sync | unbounded | otherBound | absent\n  deriving DecidableEq, Repr\n\n");
   for ty in ["MiniVec", "IntoIter", "Drain", "Splice", "DrainFilter"] {
     for tr in ["Send", "Sync"] {
@@ -333,6 +386,7 @@ pub fn facts(files: &[(String, File)]) -> (String, String) {
   for k in ["partialEq", "ord", "partialOrd", "hash", "debug", "borrow", "borrowMut", "asRefSlice", "asMutSlice", "index", "indexMut"] {
     l.push_str(&format!("def deleg_{} : Deleg := .{}\n", k, deleg.get(k).copied().unwrap_or("absent")));
   }
+  l.push_str(&format!("\n/-- provided methods of PartialEq / PartialOrd / Ord / Hash / Debug that an impl for `MiniVec` overrides -/\ndef providedOverrides : Nat := {}\n", provided_overrides.len()));
   l.push_str("\n/-- a call of the global allocator API and the function it occurs in -/\ninductive AllocSite | growAlloc | growRealloc | dropDealloc | otherSite\n  deriving DecidableEq, Repr\n\n");
   let sites: Vec<&str> = alloc_sites
     .iter()
@@ -349,6 +403,10 @@ pub fn facts(files: &[(String, File)]) -> (String, String) {
   // ---- json
   let mut j = String::from("{\n \"apis\": [");
   j.push_str(&sigs.iter().map(|s| format!("{{\"name\": \"{}\", \"recv\": \"{}\", \"borrow\": \"{}\", \"elem_outlives\": {}}}", s.name, s.recv, s.borrow, s.outlives_bound)).collect::<Vec<_>>().join(", "));
+  j.push_str("],\n \"exported_modules\": [");
+  j.push_str(&exported_mods.iter().map(|m| format!("\"{}\"", m)).collect::<Vec<_>>().join(", "));
+  j.push_str("],\n \"provided_overrides\": [");
+  j.push_str(&provided_overrides.iter().map(|m| format!("\"{}\"", m)).collect::<Vec<_>>().join(", "));
   j.push_str("],\n \"alloc_sites\": [");
   j.push_str(&alloc_sites.iter().map(|(a, b)| format!("\"{} -> {}\"", a, b)).collect::<Vec<_>>().join(", "));
   j.push_str("],\n \"unsafe_impls\": [");
